@@ -51,6 +51,10 @@ func (c *Caser) Identifierize(s string) string {
 
 	rIdent := []rune(ident)
 	if len(rIdent) > 0 {
+		// A capitalization that starts with a lower-case letter ("iOS") must not unexport the identifier.
+		rIdent[0] = unicode.ToUpper(rIdent[0])
+		ident = string(rIdent)
+
 		if !unicode.IsLetter(rIdent[0]) || isNotCaseSensitiveLetter(rIdent[0]) || hasNoUpperCase(rIdent[0]) {
 			ident = "A" + ident
 		}
